@@ -29,12 +29,37 @@ class _Length:
         return result == be(avp_plen(view_vendor(self), data_of(self)), 3)
 
 
+def _pad_residue(ctx, ns):
+    """(aligned?, 4 - len % 4 as a value): one two-way branch on the real condition, no split by residue"""
+    import ast as _ast
+    d = ctx.call_function(data_of, [ns["self"]], {})
+    n = ctx.length_of(d)
+    if isinstance(n, int):
+        return (n % 4 == 0), 4 - n % 4
+    r = ctx.binop(_ast.Mod, n, 4)
+    aligned = ctx.truth(ctx.compare("==", r, 0))
+    return aligned, ctx.binop(_ast.Sub, 4, r)
+
+
+def _padding_effect(ctx, ns):
+    aligned, k = _pad_residue(ctx, ns)
+    if aligned:
+        return None
+    return ctx.call_function(zeros, [k], {})
+
+
+def _padding_length_effect(ctx, ns):
+    aligned, k = _pad_residue(ctx, ns)
+    return None if aligned else k
+
+
 @contract("bromelia.base.DiameterAVP.padding.fget", prop="C01", name="_")
 class _Padding:
     """zero bytes up to the next 4-byte boundary; None when already aligned"""
     args = {"self": any_avp_shape()}
     at_calls = True
-    returns = T.OneOf(T.NoneS, T.Bytes(1), T.Bytes(2), T.Bytes(3))
+    effect = _padding_effect
+    check_effect = True
 
     def ensures_zero_fill(self, result):
         n = len(data_of(self))
@@ -82,7 +107,8 @@ class _GetLength:
 class _GetPaddingLength:
     args = {"self": any_avp_shape()}
     at_calls = True
-    returns = T.OneOf(T.NoneS, T.Int(lo=1, hi=3))
+    effect = _padding_length_effect
+    check_effect = True
 
     def ensures_value(self, result):
         n = len(data_of(self))
